@@ -10,7 +10,7 @@ func zzElt(name string) *Elt {
 	return x
 }
 
-//zz: prop=C12 tier=quick backend=lia timeout=300
+//zz: prop=C12 also=C14 tier=quick backend=lia timeout=300
 func ZZ_C12_fp448_add() {
 	x, y, z := zzElt("x"), zzElt("y"), new(Elt)
 	want := zzWAdd(zzWLE(x[:]), zzWLE(y[:]))
@@ -18,7 +18,7 @@ func ZZ_C12_fp448_add() {
 	zzAssert(zzWCong(zzWLE(z[:]), want, zzP), "add congruent")
 }
 
-//zz: prop=C12 tier=quick backend=lia timeout=300
+//zz: prop=C12 also=C14 tier=quick backend=lia timeout=300
 func ZZ_C12_fp448_sub() {
 	x, y, z := zzElt("x"), zzElt("y"), new(Elt)
 	want := zzWSub(zzWLE(x[:]), zzWLE(y[:]))
@@ -26,7 +26,7 @@ func ZZ_C12_fp448_sub() {
 	zzAssert(zzWCong(zzWLE(z[:]), want, zzP), "sub congruent")
 }
 
-//zz: prop=C12 tier=quick backend=lia timeout=300
+//zz: prop=C12 also=C14 tier=quick backend=lia timeout=300
 func ZZ_C12_fp448_neg_addsub() {
 	x, y, z := zzElt("x"), zzElt("y"), new(Elt)
 	Neg(z, x)
@@ -38,7 +38,7 @@ func ZZ_C12_fp448_neg_addsub() {
 	zzAssert(zzWCong(zzWLE(y[:]), d, zzP), "addsub: y' = x-y")
 }
 
-//zz: prop=C12 tier=quick backend=lia timeout=300
+//zz: prop=C12 also=C14 tier=quick backend=lia timeout=300
 func ZZ_C12_fp448_modp_iszero_tobytes() {
 	x := zzElt("x")
 	v := zzWLE(x[:])
@@ -60,7 +60,7 @@ func ZZ_C12_fp448_modp_iszero_tobytes() {
 
 // red64: every pair (l, h) of 7-limb values: z ≡ l + h*2^448 (mod p)
 //
-//zz: prop=C12 tier=quick backend=lia timeout=300
+//zz: prop=C12 also=C14 tier=quick backend=lia timeout=300
 func ZZ_C12_fp448_red64() {
 	var l, h [7]uint64
 	zzFill("l", &l)
@@ -102,7 +102,7 @@ func ZZ_C12_fp448_sqr_schoolbook() {
 	zzAssert(zzWEq(got, want), "limbs handed to red64 = x*x exactly")
 }
 
-//zz: prop=C12 tier=quick backend=bv timeout=60
+//zz: prop=C12 also=C14 tier=quick backend=bv timeout=60
 func ZZ_C12_fp448_cmov_cswap() {
 	x, y := zzElt("x"), zzElt("y")
 	n := zzUint("n")
